@@ -597,6 +597,7 @@ type JOp struct {
 	Host     string
 	Path     string    `json:",omitempty"` // request path
 	Cookies  []JCookie `json:",omitempty"`
+	Wire     bool      `json:",omitempty"` // get: instead of asking the jar, a request is sent to the URL and the cookies the server received are judged
 	RelGot   bool      `json:",omitempty"` // get: the caller releases the returned cookies (documented as safe)
 }
 
@@ -811,13 +812,28 @@ func checkJar(c JarCase) vk.Verdict {
 				v.Classes = append(v.Classes, "redirect-to-another-host")
 			}
 		case "get":
-			got := jar.Get(u)
+			var got []*fasthttp.Cookie
 			var gs []string
-			for _, ck := range got {
-				gs = append(gs, string(ck.Key())+"="+string(ck.Value()))
+			if op.Wire {
+				// what the jar puts on the wire: a request of a client with this jar, the cookies the server received
+				wcl := client.New().SetDial(func(string) (net.Conn, error) { return s.ln.Dial() }).SetCookieJar(jar).SetTimeout(20 * time.Second)
+				resp, err := wcl.Get("http://" + op.Host + op.Path)
+				if err != nil {
+					return vk.Failf("op %d: request to http://%s%s failed: %v", i, op.Host, op.Path, err)
+				}
+				resp.Close()
+				s.mu.Lock()
+				gs = append(gs, s.got.Cookies...)
+				s.mu.Unlock()
+				v.Classes = append(v.Classes, "cookies-seen-on-the-wire")
+			} else {
+				got = jar.Get(u)
+				for _, ck := range got {
+					gs = append(gs, string(ck.Key())+"="+string(ck.Value()))
+				}
 			}
 			sort.Strings(gs)
-			if op.RelGot {
+			if op.RelGot && !op.Wire {
 				// "The CookieJar keeps its own copies of cookies, so it is safe to release the returned cookies after use":
 				// the caller does, and the pooled objects are taken and used by somebody else
 				for _, ck := range got {
@@ -871,7 +887,7 @@ func checkJar(c JarCase) vk.Verdict {
 			for _, g := range gs {
 				count[g]++
 			}
-			ctx := fmt.Sprintf("op %d: Get(http://%s%s) returned %v; model: must %v may %v (history %+v)", i, op.Host, op.Path, gs, must, may, c.Ops[:i+1])
+			ctx := fmt.Sprintf("op %d: Get(http://%s%s) [wire=%v] returned %v; model: must %v may %v (history %+v)", i, op.Host, op.Path, op.Wire, gs, must, may, c.Ops[:i+1])
 			for _, m := range must {
 				if count[m] == 0 {
 					return vk.Failf("%s: the stored, unexpired, path-matching cookie %s is missing", ctx, m)
@@ -983,6 +999,7 @@ func genJar(t *rapid.T) JarCase {
 		default:
 			op.Kind = "get"
 			op.RelGot = rapid.IntRange(0, 2).Draw(t, "relgot") == 0
+			op.Wire = rapid.IntRange(0, 2).Draw(t, "wire") == 0
 		}
 		if op.Kind == "set" || op.Kind == "parse" {
 			nc := rapid.IntRange(1, 3).Draw(t, "nc")
